@@ -46,6 +46,14 @@ class GameIO:
     def write(self, obj, path, layout=None):
         raise NotImplementedError
 
+    def read_api(self, data: bytes, layout=None, raw_newlines=False):
+        """the in-memory entry point (X.read(lines | text | bytes)): the user program read the file itself"""
+        raise NotImplementedError
+
+    def write_api(self, obj, layout=None) -> bytes:
+        """the in-memory exit point (x.write()): the user program stores the result itself"""
+        raise NotImplementedError
+
     def alpha(self, obj):
         return alpha_map(obj) if self.kind == "map" else alpha_mapset(obj)
 
@@ -197,7 +205,11 @@ class IoRead(OpSpec):
         data = fs.files[path]
         layout = op.get("layout")
         parg = _path_arg(path, op.get("path_type", "str"))
-        res, ctx = run_io(sess, fs, op.get("io"), lambda: g.read(parg, layout))
+        if op.get("via") == "api":
+            res, ctx = run_io(sess, fs, None, lambda: g.read_api(data, layout, bool(op.get("raw_newlines"))))
+            out.probes.append("read_via_api" + ("_raw_newlines" if op.get("raw_newlines") and b"\r\n" in data else ""))
+        else:
+            res, ctx = run_io(sess, fs, op.get("io"), lambda: g.read(parg, layout))
         fired = list(ctx.fired)
         out.note = ("io.read", op["game"], path, tuple(ctx.sizes[:400]), tuple(fired), res.ok, res.exc_name)
         self._probes(out, ctx, data, fs)
@@ -305,8 +317,15 @@ class IoWrite(OpSpec):
             fs.files.pop(path, None)
         parg = _path_arg(path, op.get("path_type", "str"))
         scratch = path + ".dry"
-        res, ctx = run_io(sess, fs, op.get("io"), lambda: g.write(h.obj, parg, layout),
-                          dry=lambda: g.write(h.obj, _path_arg(scratch, op.get("path_type", "str")), layout))
+        if op.get("via") == "api":
+            def via_api():
+                fs.files[path] = g.write_api(h.obj, layout)
+
+            res, ctx = run_io(sess, fs, None, via_api)
+            out.probes.append("write_via_api")
+        else:
+            res, ctx = run_io(sess, fs, op.get("io"), lambda: g.write(h.obj, parg, layout),
+                              dry=lambda: g.write(h.obj, _path_arg(scratch, op.get("path_type", "str")), layout))
         fs.files.pop(scratch, None)
         fired = list(ctx.fired)
         out.note = ("io.write", op["game"], path, tuple(ctx.sizes[:400]), tuple(fired), res.ok, res.exc_name,
